@@ -72,7 +72,9 @@ def run(R):
     for m, pfx in GS.TAGS.items():
         for n in (0, 1, 3, 4, 8, 16, 20, 64, 65, 256):
             rb = bytes(R.rng.randrange(256) for _ in range(n))
-            for sz in ([-5, 0, 1, 2, 3, 10, 30, 60, 100, 192, 193, 4096] if quick else list(range(-2, 200)) + [4096]):
+            # every size around the writers' own limits for the two nrbytes classes that fill a salt (exact-fit sizes are where an off-by-one
+            # in a space test shows: seeded/C04f, output_size 29 for bcrypt), a sparse set for the others
+            for sz in ((list(range(-2, 70)) + [100, 191, 192, 193, 4096] if n in (16, 64) else [-5, 0, 1, 2, 3, 10, 30, 60, 100, 192, 193, 4096]) if quick else list(range(-2, 200)) + [4096]):
                 gops.append("G rn %s %d %s %d %d" % (hx(pfx), R.rng.choice([0, 0, 5, 1000, 2**64 - 1]), hx(rb) if n else ".", n, sz))
         gops.append("G rn %s 0 - -7 192" % hx(pfx)); gops.append("G rn %s 0 - 100000 192" % hx(pfx))
     gl, gml, _ = R.run_pair(gops, variant="asan")
